@@ -8,9 +8,18 @@
     pile; a pair is accepted exactly when it was never offered before in either orientation.
     Negative controls (start of the last hit, strict '<' in the overlap test, duplicate test in one
     orientation, absorbed piles not deleted) must be refuted.
+    spec/Piler/PilerPiles.tla: Piles(filter) as a state machine on top of these piler states - first
+    and repeated calls, every filter (none, every set of pairs, pile-reading filters), every order of
+    visiting the piles: the filter is only consulted about pairs both of whose features are placed in
+    the pile of their component, and the members listed are those the filter keeps.  Negative control:
+    one fused pass (place the features of a pile and consult the filter at once).
 (B) Add sequences emitted by TLC from the same module - all sequences of a small universe and random
     walks over positions 0..5 on two locations, the latter replayed in every distinct order - are run
-    on a real pals.NewPiler(0); Piles(nil), Piles(nil), Piles(filter)..., Piles(nil) are logged.
+    on a real pals.NewPiler(0); Piles(nil), Piles(nil), Piles(filter)..., Piles(nil) or, for about half
+    of the instances, Piles(filter)... on the fresh piler, Piles(nil), Piles(nil) are logged.  Filters:
+    sets of pairs, and filters that read the span of the piles the pair's features lie in (what these
+    let through is computed by PilerTrace.tla from the components); every filter records whether the
+    features of the pair it is handed are located in piles, and in which.
 (C) Random instances of up to 40 pairs on up to three locations with coordinates 0..200.
     PilerTrace.tla judges every logged instance by recomputing the components with the operators of
     Piler.tla.
@@ -41,6 +50,15 @@ MC_THOROUGH = MC_QUICK + [
     ("PilerMC:3loc-pos0..2-3adds", {"Locs": "{1, 2, 3}", "MaxPos": 2, "MinLen": 1, "MaxPairs": 3}, "81 pairs"),
     ("PilerMC:1loc-pos0..3-5adds", {"Locs": "{1}", "MaxPos": 3, "MinLen": 1, "MaxPairs": 5},
      "36 pairs, chains of up to 10 features"),
+]
+# Piles(filter) state machine: name -> (constants, note)
+PILES_QUICK = [
+    ("PilerPilesMC:2loc-pos0..2-2adds-2calls", {"Locs": "{1, 2}", "MaxPos": 2, "MinLen": 1, "MaxPairs": 2, "MaxCalls": 2},
+     "every filter, every visiting order, first and repeated call"),
+]
+PILES_THOROUGH = PILES_QUICK + [
+    ("PilerPilesMC:1loc-pos0..3-3adds-2calls", {"Locs": "{1}", "MaxPos": 3, "MinLen": 1, "MaxPairs": 3, "MaxCalls": 2},
+     "piles of up to 6 features, 8 set filters"),
 ]
 NEGATIVES = [("last_start", "start of the last hit instead of the minimum"),
              ("strict", "'<' in the overlap test: abutting features stay apart"),
@@ -98,10 +116,16 @@ def _validate_chunks(path, pool):
 
 
 def _stored(ev):
-    """The replayable form of a logged instance: the Adds and the filters of the Piles calls."""
+    """The replayable form of a logged instance: the Adds and the Piles calls (filters) in order."""
     seq = [[{"loc": a["a"][0], "s": a["a"][1], "e": a["a"][2]}, {"loc": a["b"][0], "s": a["b"][1], "e": a["b"][2]}]
            for a in ev["adds"]]
-    return {"seq": seq, "filters": [c["pass"] for c in ev["calls"] if not c["nilf"]]}
+    return {"seq": seq, "plan": [{"kind": c["kind"], "L": c["L"], "pass": [] if c["nilf"] else c["pass"]}
+                                 for c in ev["calls"]]}
+
+
+def _unfiltered(ev):
+    """The first Piles(nil) call of an instance (the first call of all if there is none)."""
+    return next((c for c in ev["calls"] if c["nilf"]), ev["calls"][0])
 
 
 class _Sum:
@@ -132,8 +156,10 @@ def _judge(ck, label, path, pool, stats):
     for i in sorted(by):
         ev = evs[i - 1]
         adds = ["%s-%s%s" % (a["a"], a["b"], "" if a["err"] == "" else " (" + a["err"] + ")") for a in ev["adds"]]
-        ck.violation("pals.Piler, Adds in order %s: %s; first call reported %s" %
-                     ("; ".join(adds), " | ".join(by[i]), json.dumps(ev["calls"][0]["piles"])),
+        ck.violation("pals.Piler, Adds in order %s, Piles calls %s: %s; first unfiltered call reported %s" %
+                     ("; ".join(adds), ",".join(c["kind"] + (">=%d" % c["L"] if c["kind"].startswith("span") else "")
+                                                for c in ev["calls"]),
+                      " | ".join(by[i]), json.dumps(_unfiltered(ev)["piles"])),
                      {"kind": "piler-instance", "instance": _stored(ev), "why": by[i], "source": ev["src"]})
     if drift:
         ck.extra["drift_" + label] = len(drift)
@@ -142,7 +168,7 @@ def _judge(ck, label, path, pool, stats):
                  (label, len(drift), json.dumps(_stored(evs[drift[0] - 1]))))
     for e in evs:
         key = json.dumps([[a["a"], a["b"]] for a in e["adds"]])
-        first = e["calls"][0]["piles"]
+        first = _unfiltered(e)["piles"]
         stats["instances"].add(key)
         if any(len(p["im"]) >= 2 for p in first):
             stats["nontrivial"].add(key)
@@ -153,24 +179,35 @@ def _judge(ck, label, path, pool, stats):
         stats["maxpairs"] = max(stats["maxpairs"], len(e["adds"]))
         stats["maxpile"] = max([stats["maxpile"]] + [len(p["im"]) for p in first])
         stats["filtered_calls"] += sum(1 for c in e["calls"] if not c["nilf"])
+        stats["filter_first"] += 0 if e["calls"][0]["nilf"] else 1
+        for c in e["calls"]:
+            if c["kind"].startswith("span"):
+                stats["span_calls"] += 1
+                kept = sum(len(q["im"]) for q in c["piles"])
+                if 0 < kept < 2 * sum(1 for a in e["adds"] if a["err"] == ""):
+                    stats["span_discriminating"] += 1
     return evs
 
 
 def run(ck, tier):
     thorough = tier == "thorough"
     ck.rule = ("a case is one instance: a sequence of Add calls on a fresh pals.NewPiler(0) followed by Piles(nil), "
-               "Piles(nil), Piles(filter)..., Piles(nil); non-trivial = at least one reported pile holds two or more "
+               "Piles(nil), Piles(filter)..., Piles(nil) or by Piles(filter)..., Piles(nil), Piles(nil); non-trivial = at least one reported pile holds two or more "
                "features (a merge happened); distinct by the ordered list of added pairs")
     ck.assumptions = [
         "overlap slack 0 (pals.NewPiler(0)); features with start <= end (the interval tree silently refuses inverted ones)",
         "locations are pals.Contig values; all Adds precede the first Piles call (Add after Piles is not in the statement)",
         "under a pair filter a pile must list every member of its component the filter accepts and nothing from another "
-        "component; listing a member the filter rejects is recorded as model drift, not as a violation",
+        "component; under a filter given as a set of pairs, listing a member the filter rejects is recorded as model "
+        "drift, not as a violation; under a filter that reads the piles of the pair's features the members must be "
+        "exactly those the filter keeps on the components",
+        "a pair filter may read Location() of both features of the pair it is handed: whenever it is consulted, both "
+        "must be located in the piles reported for their components (also on the first Piles call of a piler)",
         "order of the returned piles and of Images is not specified: compared as sets",
     ]
     work = vlib.scratch("c16-")
     pool = ThreadPoolExecutor(max_workers=4)       # trace validation
-    mcpool = ThreadPoolExecutor(max_workers=3)     # model checks, running meanwhile
+    mcpool = ThreadPoolExecutor(max_workers=4)     # model checks, running meanwhile
     try:
         # (A) start the model checks; they run while the conformance traces are produced
         mcs = MC_THOROUGH if thorough else MC_QUICK
@@ -180,9 +217,20 @@ def run(ck, tier):
                     for v, note in NEGATIVES]
         mc_jobs = [(name, note, mcpool.submit(vlib.tlc, SPEC, "Piler", None, cfg_text=_mc_cfg(c), workers=w, timeout=3400))
                    for name, c, note in mcs]
+        # Piles(filter): the two passes; negative control: the fused pass, refuted both by what the filter
+        # sees and (that law left out) by the members listed
+        fused = vlib.subst_cfg(SPEC, "PilerPilesNeg.cfg", {})        # Discipline = "fused"
+        pneg_jobs = [("PilerPilesNeg:fused", ("ConsultedWhenPlaced",), "one fused pass (place a pile's features, filter them at once)",
+                      mcpool.submit(vlib.tlc, SPEC, "PilerPiles", None, workers=2, timeout=900, cfg_text=fused)),
+                     ("PilerPilesNeg:fused-members", ("ReportedMembers",), "one fused pass, judged by the members listed only",
+                      mcpool.submit(vlib.tlc, SPEC, "PilerPiles", None, workers=2, timeout=900,
+                                    cfg_text=fused.replace("  ConsultedWhenPlaced\n", "")))]
+        pmc_jobs = [(name, note, mcpool.submit(vlib.tlc, SPEC, "PilerPiles", None, workers=w, timeout=3400,
+                                               cfg_text=vlib.subst_cfg(SPEC, "PilerPilesMC.cfg", c)))
+                    for name, c, note in (PILES_THOROUGH if thorough else PILES_QUICK)]
         # (B) sequences emitted by TLC
         stats = {"instances": set(), "nontrivial": set(), "chains": set(), "rejected": set(), "maxpairs": 0,
-                 "maxpile": 0, "filtered_calls": 0}
+                 "maxpile": 0, "filtered_calls": 0, "filter_first": 0, "span_calls": 0, "span_discriminating": 0}
         gens = [("all-1..2adds-2loc-pos0..3", {"Locs": "{1, 2}", "MaxPos": 3, "MinLen": 1, "MaxPairs": 2, "EmitFrom": 1}, 0, False)]
         if thorough:
             gens.append(("all-1..3adds-1loc-pos0..3", {"Locs": "{1}", "MaxPos": 3, "MinLen": 1, "MaxPairs": 3, "EmitFrom": 1}, 0, False))
@@ -203,10 +251,11 @@ def run(ck, tier):
             vlib.log("  [vpiler] %s: %s" % (label, p.stdout.strip()))
             evs = _judge(ck, label, tr, pool, stats)
             if perm and not sample_done:
-                big = [e for e in evs if any(len(q["im"]) >= 3 for q in e["calls"][0]["piles"])]
+                big = [e for e in evs if any(len(q["im"]) >= 3 for q in _unfiltered(e)["piles"])]
                 if big:
                     ck.samples.append({"source": "TLC random walk replayed in every order", "adds": big[0]["adds"],
-                                       "piles": big[0]["calls"][0]["piles"], "feats": big[0]["calls"][0]["feats"]})
+                                       "calls": [c["kind"] for c in big[0]["calls"]],
+                                       "piles": _unfiltered(big[0])["piles"], "feats": _unfiltered(big[0])["feats"]})
                     sample_done = True
             os.remove(tr)
         # binding self-test: a falsified log must be rejected by the trace specification
@@ -214,16 +263,21 @@ def run(ck, tier):
         with open(os.path.join(work, gens[-1][0] + ".beh")) as f:
             lines = f.read().splitlines()[:30]
         open(beh, "w").write("\n".join(lines) + "\n")
-        for field in ("member", "to", "mate"):
+        def _selftest(field):
             tr = os.path.join(work, "self-%s.ndjson" % field)
-            vlib.harness(["replay", "-in", beh, "-out", tr, "-corrupt", field], cmd="vpiler")
             v, r = vlib.validate(SPEC, "PilerTrace", "PilerTrace.cfg", tr)
-            bad = len(set(i for i, _ in v["fails"]))
-            if bad < v["events"] * 0.8:
-                raise vlib.Infra("binding self-test: a log with a falsified '%s' field was accepted (%d of %d rejected)" %
-                                 (field, bad, v["events"]))
             os.remove(tr)
-        vlib.log("  [self-test] logs with a falsified pile end, member list and mate link are rejected by PilerTrace")
+            return len(set(i for i, _ in v["fails"])), v["events"]
+        fields = ("member", "to", "mate", "unplaced", "seen", "spanim")
+        for field in fields:        # (the driver is run from this thread only: vlib builds it per call on trial trees)
+            vlib.harness(["replay", "-in", beh, "-out", os.path.join(work, "self-%s.ndjson" % field), "-corrupt", field],
+                         cmd="vpiler")
+        for field, (bad, n) in zip(fields, pool.map(_selftest, fields)):
+            if bad < n * 0.8:
+                raise vlib.Infra("binding self-test: a log with a falsified '%s' field was accepted (%d of %d rejected)" %
+                                 (field, bad, n))
+        vlib.log("  [self-test] logs with a falsified pile end, member list, mate link, filter view (unplaced feature, "
+                 "foreign pile) and member list under a pile-reading filter are rejected by PilerTrace")
         # (C) random instances
         tr = os.path.join(work, "random.ndjson")
         n = 1500 if thorough else 150
@@ -236,7 +290,8 @@ def run(ck, tier):
         e = max(evs[:50], key=lambda e: len(e["adds"]))
         ck.samples.append({"source": "random instance", "adds": len(e["adds"]),
                            "rejected": sum(1 for a in e["adds"] if a["err"]),
-                           "piles": [[q["loc"], q["from"], q["to"], len(q["im"])] for q in e["calls"][0]["piles"]]})
+                           "calls": [c["kind"] + (">=%d" % c["L"] if c["kind"].startswith("span") else "") for c in e["calls"]],
+                           "piles": [[q["loc"], q["from"], q["to"], len(q["im"])] for q in _unfiltered(e)["piles"]]})
         # collect (A)
         for name, note, fut in mc_jobs:
             r = fut.result()
@@ -247,13 +302,27 @@ def run(ck, tier):
             if r.violated not in LAWS:
                 raise vlib.Infra("negative control Variant=%s not refuted (%s):\n%s" % (v, r.violated, r.out[-1500:]))
             ck.mc("PilerNeg:" + v, r, "%s: refuted by %s" % (note, r.violated))
+        for name, note, fut in pmc_jobs:
+            r = fut.result()
+            vlib.tlc_expect_ok(r, name)
+            ck.mc(name, r, "all Add orders, then Piles calls; " + note)
+        for name, want, note, fut in pneg_jobs:
+            r = fut.result()
+            if r.violated not in want:
+                raise vlib.Infra("negative control %s not refuted by %s (%s):\n%s" % (name, want, r.violated, r.out[-1500:]))
+            ck.mc(name, r, "%s: refuted by %s" % (note, r.violated))
         ck.exhaustive = True
         ck.nontrivial = len(stats["nontrivial"])
         ck.extra.update({"distinct_instances": len(stats["instances"]),
                          "instances_with_pile_of_3_or_more": len(stats["chains"]),
                          "instances_with_rejected_add": len(stats["rejected"]),
                          "largest_instance_pairs": stats["maxpairs"], "largest_pile_members": stats["maxpile"],
-                         "filtered_piles_calls": stats["filtered_calls"]})
+                         "filtered_piles_calls": stats["filtered_calls"],
+                         "instances_with_filter_on_fresh_piler": stats["filter_first"],
+                         "pile_reading_filter_calls": stats["span_calls"],
+                         "pile_reading_filter_calls_keeping_some_not_all": stats["span_discriminating"]})
+        if not stats["filter_first"] or not stats["span_discriminating"]:
+            raise vlib.Infra("no instance started with a filtered Piles call, or no pile-reading filter discriminated")
     finally:
         pool.shutdown(wait=True)
         mcpool.shutdown(wait=True)
@@ -271,7 +340,8 @@ def replay(path):
         v, r = vlib.validate(SPEC, "PilerTrace", "PilerTrace.cfg", tr)
         ev = vlib.read_ndjson(tr)[0]
         vlib.log("  adds: %s" % json.dumps(ev["adds"]))
-        vlib.log("  piles: %s" % json.dumps(ev["calls"][0]["piles"]))
+        vlib.log("  calls: %s" % json.dumps([[c["kind"], c["L"], c["pass"]] for c in ev["calls"]]))
+        vlib.log("  piles: %s" % json.dumps(_unfiltered(ev)["piles"]))
         for i, why in v["fails"]:
             vlib.log("VIOLATION property=C16 replay=%s" % path)
             vlib.log("  what: %s" % why)
